@@ -127,6 +127,15 @@ func init() {
 			{Name: "shared removal step selected by either endpoint", ExpectRule: "C18.R6", ExpectKey: "PopMatchingPeer", Edits: []Edit{
 				{File: rlt, Old: "\tif up := r.byUpstream[streamID]; up != nil && up.UpstreamPeer == peer {\n\t\tdelete(r.byUpstream, up.UpstreamID)\n\t\tdelete(r.byDownstream, up.DownstreamID)\n\t\treturn up, true\n\t}\n\tif down := r.byDownstream[streamID]; down != nil && down.DownstreamPeer == peer {\n\t\tdelete(r.byUpstream, down.UpstreamID)\n\t\tdelete(r.byDownstream, down.DownstreamID)\n\t\treturn down, false\n\t}\n\treturn nil, false\n", New: "\tif up := r.byUpstream[streamID]; up != nil && up.UpstreamPeer == peer {\n\t\tentry, fromUpstream = up, true\n\t} else if down := r.byDownstream[streamID]; down != nil && (down.DownstreamPeer == peer || down.UpstreamPeer == peer) {\n\t\tentry, fromUpstream = down, false\n\t}\n\tif entry != nil {\n\t\tdelete(r.byUpstream, entry.UpstreamID)\n\t\tdelete(r.byDownstream, entry.DownstreamID)\n\t}\n\treturn entry, fromUpstream\n"},
 			}},
+			{Name: "manager read-lock kept (defer) across the blocking delivery", ExpectRule: "C18.R8", ExpectKey: "HandleStreamData", Edits: []Edit{
+				{File: mgr, Old: "\tm.mu.RLock()\n\tstream := m.streams[streamID]\n\tm.mu.RUnlock()\n\n\tif stream == nil {\n\t\treturn fmt.Errorf(\"unknown stream %d\", streamID)\n\t}\n\n\t// Deliver the frame's data before signalling FIN", New: "\tm.mu.RLock()\n\tdefer m.mu.RUnlock()\n\n\tstream, ok := m.streams[streamID]\n\tif !ok {\n\t\treturn fmt.Errorf(\"unknown stream %d\", streamID)\n\t}\n\n\t// Deliver the frame's data before signalling FIN"},
+			}},
+			{Name: "exit writes to the destination while holding the connection-table lock", ExpectRule: "C18.R8", ExpectKey: "exit", Edits: []Edit{
+				{File: exh, Old: "\th.mu.RLock()\n\tac := h.connections[streamID]\n\th.mu.RUnlock()\n\n\tif ac == nil {\n\t\treturn fmt.Errorf(\"unknown stream %d\", streamID)\n\t}\n\n\tif ac.IsClosed() {", New: "\th.mu.RLock()\n\tdefer h.mu.RUnlock()\n\tac := h.connections[streamID]\n\n\tif ac == nil {\n\t\treturn fmt.Errorf(\"unknown stream %d\", streamID)\n\t}\n\n\tif ac.IsClosed() {"},
+			}},
+			{Name: "stream removal waits for the stream under the table lock", ExpectRule: "C18.R8", ExpectKey: "RemoveStream", Edits: []Edit{
+				{File: mgr, Old: "\tstream, ok := m.streams[streamID]\n\tif ok {\n\t\tdelete(m.streams, streamID)\n\t}\n\tm.mu.Unlock()\n\n\tif ok {\n\t\tstream.Close()\n\t\tif m.onStreamClose != nil {\n\t\t\tm.onStreamClose(stream, nil)", New: "\tstream, ok := m.streams[streamID]\n\tif ok {\n\t\tdelete(m.streams, streamID)\n\t\tstream.Close()\n\t\t<-stream.Done()\n\t}\n\tm.mu.Unlock()\n\n\tif ok {\n\t\tif m.onStreamClose != nil {\n\t\t\tm.onStreamClose(stream, nil)"},
+			}},
 			// behaviour-preserving rewrites
 			{Name: "rewrite: CanWrite as a switch", Edits: []Edit{
 				{File: mgr, Old: "\tstate := s.State()\n\treturn state == StateOpen || state == StateHalfClosedRemote\n", New: "\tswitch s.State() {\n\tcase StateOpen, StateHalfClosedRemote:\n\t\treturn true\n\t}\n\treturn false\n"},
@@ -157,6 +166,9 @@ func init() {
 			}},
 			{Name: "rewrite: relay pop with one variable and side-correct checks", Edits: []Edit{
 				{File: rlt, Old: "\tif up := r.byUpstream[streamID]; up != nil && up.UpstreamPeer == peer {\n\t\tdelete(r.byUpstream, up.UpstreamID)\n\t\tdelete(r.byDownstream, up.DownstreamID)\n\t\treturn up, true\n\t}\n\tif down := r.byDownstream[streamID]; down != nil && down.DownstreamPeer == peer {\n\t\tdelete(r.byUpstream, down.UpstreamID)\n\t\tdelete(r.byDownstream, down.DownstreamID)\n\t\treturn down, false\n\t}\n\treturn nil, false\n", New: "\tentry, fromUpstream = r.byUpstream[streamID], true\n\tif entry == nil || entry.UpstreamPeer != peer {\n\t\tentry, fromUpstream = r.byDownstream[streamID], false\n\t\tif entry == nil || entry.DownstreamPeer != peer {\n\t\t\treturn nil, false\n\t\t}\n\t}\n\tdelete(r.byUpstream, entry.UpstreamID)\n\tdelete(r.byDownstream, entry.DownstreamID)\n\treturn entry, fromUpstream\n"},
+			}},
+			{Name: "rewrite: stream looked up through GetStream (deferred unlock inside the getter only)", Edits: []Edit{
+				{File: mgr, Old: "\tm.mu.RLock()\n\tstream := m.streams[streamID]\n\tm.mu.RUnlock()\n\n\tif stream == nil {\n\t\treturn fmt.Errorf(\"unknown stream %d\", streamID)\n\t}\n\n\t// Deliver the frame's data before signalling FIN", New: "\tstream := m.GetStream(streamID)\n\tif stream == nil {\n\t\treturn fmt.Errorf(\"unknown stream %d\", streamID)\n\t}\n\n\t// Deliver the frame's data before signalling FIN"},
 			}},
 			{Name: "rewrite: relay pop selects the entry first and removes it in one shared step", Edits: []Edit{
 				{File: rlt, Old: "\tif up := r.byUpstream[streamID]; up != nil && up.UpstreamPeer == peer {\n\t\tdelete(r.byUpstream, up.UpstreamID)\n\t\tdelete(r.byDownstream, up.DownstreamID)\n\t\treturn up, true\n\t}\n\tif down := r.byDownstream[streamID]; down != nil && down.DownstreamPeer == peer {\n\t\tdelete(r.byUpstream, down.UpstreamID)\n\t\tdelete(r.byDownstream, down.DownstreamID)\n\t\treturn down, false\n\t}\n\treturn nil, false\n", New: "\tif up := r.byUpstream[streamID]; up != nil && up.UpstreamPeer == peer {\n\t\tentry, fromUpstream = up, true\n\t} else if down := r.byDownstream[streamID]; down != nil && down.DownstreamPeer == peer {\n\t\tentry, fromUpstream = down, false\n\t}\n\tif entry != nil {\n\t\tdelete(r.byUpstream, entry.UpstreamID)\n\t\tdelete(r.byDownstream, entry.DownstreamID)\n\t}\n\treturn entry, fromUpstream\n"},
@@ -467,6 +479,7 @@ func runC18(p *kit.Program, r *kit.Report) {
 	cx.ruleR5()
 	cx.ruleR6()
 	cx.ruleR7()
+	cx.ruleR8()
 }
 
 // ---------- R1 ----------
@@ -1648,15 +1661,16 @@ func (cx *c18Ctx) ruleR4() {
 
 // ---------- R5 ----------
 
-func (cx *c18Ctx) ruleR5() {
-	p, r := cx.p, cx.r
-	// per-stream tables: map[uint64]*T fields of stream.Manager / exit.Handler / forward.Handler whose
-	// element is the live stream / connection record
-	type table struct {
-		f     *types.Var
-		owner string
-	}
-	var tables []table
+// c18Table is a per-stream table: a map keyed by the stream id holding the live stream / connection.
+type c18Table struct {
+	f      *types.Var
+	owner  string
+	ownerT *types.Named
+}
+
+func (cx *c18Ctx) streamTables() []c18Table {
+	p := cx.p
+	var tables []c18Table
 	for _, o := range []struct{ pkg, typ string }{{"internal/stream", "Manager"}, {"internal/exit", "Handler"}, {"internal/forward", "Handler"}} {
 		n := p.NamedType(o.pkg, o.typ)
 		if n == nil {
@@ -1690,9 +1704,17 @@ func (cx *c18Ctx) ruleR5() {
 			if !ok || (en.Obj().Name() != "Stream" && en.Obj().Name() != "ActiveConnection") {
 				continue
 			}
-			tables = append(tables, table{f, o.pkg + "." + o.typ + "." + f.Name()})
+			tables = append(tables, c18Table{f, o.pkg + "." + o.typ + "." + f.Name(), n})
 		}
 	}
+	return tables
+}
+
+func (cx *c18Ctx) ruleR5() {
+	p, r := cx.p, cx.r
+	// per-stream tables: map[uint64]*T fields of stream.Manager / exit.Handler / forward.Handler whose
+	// element is the live stream / connection record
+	tables := cx.streamTables()
 	r.Count("r5_stream_tables", len(tables))
 	if !r.Require(len(tables) >= 1, "floor: no stream table (map keyed by stream id holding *Stream / *ActiveConnection) found in stream.Manager, exit.Handler, forward.Handler") {
 		return
